@@ -22,13 +22,13 @@ Theorem C10_h_total_explicit :
 Proof. exact h_total_explicit. Qed.
 Print Assumptions C10_h_total_explicit.
 
-(** Hydrogen count, implicit direction: on the domain [h_dom] (every explicit H has hcount 0 and at most one
-    heavy neighbour, which is a node; H2 / H+ / lone H are inside: the repaired code keeps them) h_to_implicit
-    keeps the total.  [copy g] is the adjacency-ordered view of g that networkx iterates.  Outside the domain the
-    count changes (proof/C10_Hydrogen.v: h_total_implicit_bridge, h_total_implicit_hh). *)
+(** Hydrogen count, implicit direction: on a networkx graph ([gwfb]) in the domain [h_dom] (every explicit H has hcount 0
+    and at most one heavy neighbour; H2 / H+ / lone H are inside: the repaired code keeps them) h_to_implicit keeps the
+    total.  Outside the domain the count changes (proof/C10_Hydrogen.v: h_total_implicit_bridge, h_total_implicit_hh).
+    ([h_dom] does not depend on the adjacency order networkx iterates: proof/C10_HRound.v h_dom_copy.) *)
 Theorem C10_h_total_implicit :
-  forall g : gr, NoDup (node_ids g) -> h_dom (copy g) = true -> total_h (h_to_implicit g) = total_h g.
-Proof. exact h_total_implicit. Qed.
+  forall g : gr, gwfb g = true -> h_dom g = true -> total_h (h_to_implicit g) = total_h g.
+Proof. exact h_total_implicit_wf. Qed.
 Print Assumptions C10_h_total_implicit.
 
 (** Two routes, reaction string vs ITS: after the RDKit half (r, p = rsmi_to_graph(smart); eo = the iteration
